@@ -1,1 +1,326 @@
+(* Roots/ProofsReplay.v — the store's replay of an action list and the v2 diff refine the
+   plain list semantics; injected store failures. *)
+From Coq Require Import Lia ZifyBool ZifyN ZifyNat.
 From HostdBase Require Import Base.
+From HostdRoots Require Import Model Lists.
+Open Scope N_scope.
+
+(** * what an action list needs in stored_sectors *)
+Definition act_root (a : action) : option root :=
+  match a with Append r => Some r | Update r _ => Some r | _ => None end.
+Definition act_stored (stored : list root) (a : action) : bool :=
+  match act_root a with Some r => mem r stored | None => true end.
+Definition acts_stored (stored : list root) (acts : list action) : bool :=
+  forallb (act_stored stored) acts.
+
+(** * one step of the replay on a table that equals the caller's list *)
+
+Lemma replay_append stored l r rest :
+  store_replay stored (tbl_of l) l (Append r :: rest) None =
+  if mem r stored then store_replay stored (tbl_of (l ++ [r])) (l ++ [r]) rest None else Err EOther.
+Proof.
+  cbn [store_replay mbind stmt]. unfold append_sector.
+  destruct (mem r stored); cbn [negb lift]; [|reflexivity].
+  rewrite tins_of_end. reflexivity.
+Qed.
+
+Lemma replay_trim stored l n rest : n <= nlen l ->
+  store_replay stored (tbl_of l) l (Trim n :: rest) None =
+  store_replay stored (tbl_of (trim_roots l n)) (trim_roots l n) rest None.
+Proof.
+  intros H. cbn [store_replay mbind stmt].
+  replace (nlen l <? n) with false by lia.
+  rewrite trim_sectors_of by exact H. cbn [lift].
+  rewrite list_eqb_refl. reflexivity.
+Qed.
+
+Lemma nlen_set_root l i r : nlen (set_root l i r) = nlen l.
+Proof. unfold nlen, set_root; now rewrite length_set_nth. Qed.
+
+Lemma replay_update stored l r i rest : i < nlen l ->
+  store_replay stored (tbl_of l) l (Update r i :: rest) None =
+  if mem r stored then store_replay stored (tbl_of (set_root l i r)) (set_root l i r) rest None
+  else Err EOther.
+Proof.
+  intros H. cbn [store_replay mbind stmt]. unfold update_sector.
+  rewrite tget_of by exact H.
+  destruct (mem r stored); cbn [negb lift]; [|reflexivity].
+  replace (nlen l <=? i) with false by lia.
+  rewrite N.eqb_refl; cbn [negb]. rewrite tset_of by exact H. reflexivity.
+Qed.
+
+Lemma replay_swap stored l a0 b0 rest : a0 < nlen l -> b0 < nlen l ->
+  store_replay stored (tbl_of l) l (Swap a0 b0 :: rest) None =
+  store_replay stored (tbl_of (swap_roots l a0 b0)) (swap_roots l a0 b0) rest None.
+Proof.
+  intros Ha Hb. cbn [store_replay mbind stmt].
+  set (a := if b0 <? a0 then b0 else a0). set (b := if b0 <? a0 then a0 else b0).
+  assert (Hab : a < nlen l /\ b < nlen l /\ swap_roots l a b = swap_roots l a0 b0).
+  { subst a b; destruct (b0 <? a0); repeat split; auto. now apply swap_roots_comm. }
+  destruct Hab as (Ha' & Hb' & Hsw).
+  unfold swap_sectors. destruct (a =? b) eqn:E.
+  - apply N.eqb_eq in E. cbn [lift].
+    replace (nlen l <=? a) with false by lia. replace (nlen l <=? b) with false by lia.
+    cbn [orb]. rewrite <- Hsw, <- E, swap_roots_same. reflexivity.
+  - rewrite !tget_of by assumption. cbn [lift].
+    replace (nlen l <=? a) with false by lia. replace (nlen l <=? b) with false by lia.
+    cbn [orb]. rewrite !N.eqb_refl. cbn [orb andb].
+    rewrite tset_of by exact Ha'.
+    rewrite tset_of by (rewrite nlen_set_root; exact Hb').
+    fold (swap_roots l a b). rewrite Hsw. reflexivity.
+Qed.
+
+(** * Store.ReviseContract's replay yields exactly the fold of the accepted actions *)
+
+Lemma replay_char stored : forall acts l l',
+  fold_upd l acts = Ok l' ->
+  store_replay stored (tbl_of l) l acts None =
+  if acts_stored stored acts then Ok (tbl_of l', None) else Err EOther.
+Proof.
+  induction acts as [|a rest IH]; intros l l' H.
+  - cbn in H; injection H as <-. reflexivity.
+  - cbn [fold_upd bind] in H. unfold upd_apply in H.
+    destruct (upd_check l a) eqn:C; [|discriminate]. cbn [bind] in H.
+    cbn [acts_stored forallb]. fold (acts_stored stored rest).
+    destruct a as [r|a0 b0|n|r i]; cbn [upd_check spec_apply] in *.
+    + rewrite replay_append. unfold act_stored; cbn [act_root].
+      destruct (mem r stored); cbn [andb]; [now apply IH|reflexivity].
+    + apply andb_true_iff in C as [Ca Cb].
+      rewrite replay_swap by lia. unfold act_stored; cbn [act_root andb]. now apply IH.
+    + rewrite replay_trim by lia. unfold act_stored; cbn [act_root andb]. now apply IH.
+    + rewrite replay_update by lia. unfold act_stored; cbn [act_root].
+      destruct (mem r stored); cbn [andb]; [now apply IH|reflexivity].
+Qed.
+
+(* accepted list ⇒ the table afterwards is exactly the fold *)
+Lemma replay_refines_list stored acts l l' :
+  fold_upd l acts = Ok l' -> acts_stored stored acts = true ->
+  store_replay stored (tbl_of l) l acts None = Ok (tbl_of l', None).
+Proof. intros H S; rewrite (replay_char stored acts l l' H), S; reflexivity. Qed.
+
+Lemma replay_ok_inv stored acts l l' t k :
+  fold_upd l acts = Ok l' ->
+  store_replay stored (tbl_of l) l acts None = Ok (t, k) -> t = tbl_of l'.
+Proof.
+  intros H R; rewrite (replay_char stored acts l l' H) in R.
+  destruct (acts_stored stored acts); [now injection R as <- _|discriminate].
+Qed.
+
+(* a missing stored sector makes the whole commit fail *)
+Lemma replay_missing stored acts l l' :
+  fold_upd l acts = Ok l' -> acts_stored stored acts = false ->
+  store_replay stored (tbl_of l) l acts None = Err EOther.
+Proof. intros H S; rewrite (replay_char stored acts l l' H), S; reflexivity. Qed.
+
+(** * updateV2ContractSectors yields exactly the new list *)
+
+Definition all_stored (stored : list root) (l : list root) : bool := forallb (fun r => mem r stored) l.
+
+Lemma v2_upserts_char stored : forall new done old t k,
+  v2_upserts stored (tbl_of (done ++ old)) (nlen done) old new None = Ok (t, k) ->
+  t = tbl_of ((done ++ new) ++ skipn (length new) old) /\ k = None.
+Proof.
+  induction new as [|r new IH]; intros done old t k H.
+  - cbn in H. injection H as <- <-. rewrite app_nil_r. cbn [length skipn]. auto.
+  - cbn [v2_upserts] in H.
+    destruct old as [|o old].
+    + cbn [tl] in H. cbn [mbind stmt] in H.
+      destruct (mem r stored); cbn [negb lift] in H; [|discriminate].
+      rewrite app_nil_r in H. rewrite tupsert_of_end in H.
+      replace (nlen done + 1) with (nlen (done ++ [r])) in H by (rewrite nlen_app; reflexivity).
+      replace (done ++ [r]) with ((done ++ [r]) ++ []) in H at 1 by apply app_nil_r.
+      apply IH in H. rewrite <- app_assoc in H. cbn [app] in H.
+      cbn [length skipn]. rewrite skipn_nil in H. exact H.
+    + cbn [tl] in H. destruct (o =? r) eqn:E.
+      * apply N.eqb_eq in E; subst o.
+        replace (nlen done + 1) with (nlen (done ++ [r])) in H by (rewrite nlen_app; reflexivity).
+        replace (done ++ r :: old) with ((done ++ [r]) ++ old) in H by (rewrite <- app_assoc; reflexivity).
+        apply IH in H. rewrite <- app_assoc in H. exact H.
+      * cbn [mbind stmt] in H.
+        destruct (mem r stored); cbn [negb lift] in H; [|discriminate].
+        assert (Hi : nlen done < nlen (done ++ o :: old)) by (rewrite nlen_app, nlen_cons; lia).
+        rewrite tupsert_of_lt in H by exact Hi.
+        assert (Hs : set_root (done ++ o :: old) (nlen done) r = (done ++ [r]) ++ old).
+        { unfold set_root, nlen. rewrite Nat2N.id.
+          clear. induction done as [|x d IHd]; cbn; [reflexivity|now rewrite IHd]. }
+        rewrite Hs in H.
+        replace (nlen done + 1) with (nlen (done ++ [r])) in H by (rewrite nlen_app; reflexivity).
+        apply IH in H. rewrite <- app_assoc in H. exact H.
+Qed.
+
+Lemma v2_upserts_ok stored : forall new done old,
+  all_stored stored new = true ->
+  exists t, v2_upserts stored (tbl_of (done ++ old)) (nlen done) old new None = Ok (t, None).
+Proof.
+  induction new as [|r new IH]; intros done old S.
+  - eexists; reflexivity.
+  - cbn [all_stored forallb] in S. apply andb_true_iff in S as [Sr S].
+    cbn [v2_upserts]. destruct old as [|o old]; cbn [tl].
+    + cbn [mbind stmt]. rewrite Sr; cbn [negb].
+      rewrite app_nil_r, tupsert_of_end.
+      replace (nlen done + 1) with (nlen (done ++ [r])) by (rewrite nlen_app; reflexivity).
+      replace (done ++ [r]) with ((done ++ [r]) ++ []) at 1 by apply app_nil_r.
+      now apply IH.
+    + destruct (o =? r) eqn:E.
+      * apply N.eqb_eq in E; subst o.
+        replace (nlen done + 1) with (nlen (done ++ [r])) by (rewrite nlen_app; reflexivity).
+        replace (done ++ r :: old) with ((done ++ [r]) ++ old) by (rewrite <- app_assoc; reflexivity).
+        now apply IH.
+      * cbn [mbind stmt]. rewrite Sr; cbn [negb].
+        assert (Hi : nlen done < nlen (done ++ o :: old)) by (rewrite nlen_app, nlen_cons; lia).
+        rewrite tupsert_of_lt by exact Hi.
+        assert (Hs : set_root (done ++ o :: old) (nlen done) r = (done ++ [r]) ++ old).
+        { unfold set_root, nlen. rewrite Nat2N.id.
+          clear. induction done as [|x d IHd]; cbn; [reflexivity|now rewrite IHd]. }
+        rewrite Hs.
+        replace (nlen done + 1) with (nlen (done ++ [r])) by (rewrite nlen_app; reflexivity).
+        now apply IH.
+Qed.
+
+Lemma v2_diff_ok_inv stored old new t k :
+  v2_diff stored (tbl_of old) old new None = Ok (t, k) -> t = tbl_of new /\ k = None.
+Proof.
+  unfold v2_diff. cbn [mbind stmt].
+  destruct (v2_upserts stored (tbl_of old) 0 old new None) as [[t' k']| |] eqn:E; try discriminate.
+  apply (v2_upserts_char stored new [] old) in E. destruct E as [-> ->]. cbn [app].
+  destruct (nlen new <? nlen old) eqn:L; cbn [mbind stmt ret].
+  - intros [= <- <-]. split; [|reflexivity].
+    rewrite <- (firstn_skipn (length new) old) at 1.
+    assert (nlen new = nlen (new)) by reflexivity.
+    apply tcut_of_app.
+  - intros [= <- <-]. split; [|reflexivity].
+    rewrite skipn_all2 by (unfold nlen in L; lia). now rewrite app_nil_r.
+Qed.
+
+Lemma v2_diff_correct stored old new :
+  all_stored stored new = true ->
+  v2_diff stored (tbl_of old) old new None = Ok (tbl_of new, None).
+Proof.
+  intros S. destruct (v2_upserts_ok stored new [] old S) as (t & Ht).
+  cbn [app nlen length N.of_nat] in Ht.
+  assert (E : exists k, v2_diff stored (tbl_of old) old new None = Ok (
+     (if nlen new <? nlen old then tcut (nlen new) t else t), k)).
+  { unfold v2_diff. cbn [mbind stmt]. rewrite Ht.
+    destruct (nlen new <? nlen old); cbn [mbind stmt ret]; eexists; reflexivity. }
+  destruct E as (k & E). pose proof (v2_diff_ok_inv _ _ _ _ _ E) as [-> ->]. exact E.
+Qed.
+
+(** * injected failures *)
+
+Ltac fok_tac :=
+  repeat first
+    [ assumption
+    | apply fok_ret | apply fok_lift | apply fok_stmt | apply fok_transaction
+    | apply fok_bind; [|intros ?]
+    | match goal with
+      | |- fok (let '(_, _) := ?x in _) => destruct x
+      | |- fok (if ?b then _ else _) => destruct b
+      | |- fok (match ?x with _ => _ end) => destruct x
+      end ].
+
+Lemma fok_store_replay stored : forall acts t roots, fok (store_replay stored t roots acts).
+Proof.
+  induction acts as [|a rest IH]; intros t roots; cbn [store_replay]; [apply fok_ret|].
+  apply fok_bind; [apply fok_stmt|intros _].
+  destruct a; fok_tac; apply IH.
+Qed.
+
+Lemma fok_v2_upserts stored : forall new t i old, fok (v2_upserts stored t i old new).
+Proof.
+  induction new as [|r new IH]; intros t i old; cbn [v2_upserts]; [apply fok_ret|].
+  fok_tac; apply IH.
+Qed.
+
+Lemma fok_v2_diff stored t old new : fok (v2_diff stored t old new).
+Proof. unfold v2_diff. pose proof (fok_v2_upserts stored new t 0 old). fok_tac. Qed.
+
+Lemma fok_store_add1 d id c : fok (store_add1 d id c).
+Proof. unfold store_add1; fok_tac. Qed.
+Lemma fok_store_add2 d id c : fok (store_add2 d id c).
+Proof. unfold store_add2; fok_tac. Qed.
+
+Lemma fok_store_revise1 d id nrev nfsize nmroot old acts :
+  fok (store_revise1 d id nrev nfsize nmroot old acts).
+Proof.
+  unfold store_revise1. apply fok_transaction. apply fok_bind; [apply fok_stmt|intros _].
+  destruct (alookup id (t1 d)) as [c|]; [|apply fok_lift].
+  apply fok_bind; [apply fok_stmt|intros _].
+  apply fok_bind; [apply fok_store_replay|intros ?; apply fok_ret].
+Qed.
+
+Lemma fok_store_renew1 d old new crev cfsize cmroot nc :
+  fok (store_renew1 d old new crev cfsize cmroot nc).
+Proof. unfold store_renew1; fok_tac. Qed.
+
+Lemma fok_store_revise2 d id c old new : fok (store_revise2 d id c old new).
+Proof.
+  unfold store_revise2. apply fok_transaction. apply fok_bind; [apply fok_stmt|intros _].
+  destruct (alookup id (t2 d)) as [e|]; [|apply fok_lift].
+  apply fok_bind; [apply fok_stmt|intros _].
+  apply fok_bind; [apply fok_v2_diff|intros ?; apply fok_ret].
+Qed.
+
+Lemma fok_store_renew2 d old new nc : fok (store_renew2 d old new nc).
+Proof. unfold store_renew2; fok_tac. Qed.
+
+Lemma fok_store_get t id : fok (store_get t id).
+Proof. unfold store_get; fok_tac. Qed.
+
+Lemma fok_m_commit1 s x nrev nfsize nmroot : fok (m_commit1 s x nrev nfsize nmroot).
+Proof. apply fok_store_revise1. Qed.
+
+Lemma fok_m_renew1 s old new crev cfsize cmroot nrev nfsize nmroot nws mold :
+  fok (m_renew1 s old new crev cfsize cmroot nrev nfsize nmroot nws mold).
+Proof. unfold m_renew1. pose proof fok_store_renew1. fok_tac. Qed.
+
+Lemma fok_m_revise2 s id c newroots mnew rsig hsig : fok (m_revise2 s id c newroots mnew rsig hsig).
+Proof.
+  unfold m_revise2. apply fok_bind; [apply fok_store_get|intros e].
+  pose proof fok_store_revise2. fok_tac.
+Qed.
+
+Lemma fok_m_renew2 s old new c mold wf : fok (m_renew2 s old new c mold wf).
+Proof.
+  unfold m_renew2. destruct (negb wf); [apply fok_lift|].
+  apply fok_bind; [apply fok_store_get|intros e].
+  pose proof fok_store_renew2. fok_tac.
+Qed.
+
+(* the shape every faulted operation has *)
+Lemma outcome_fault A (m : M A) s (f : A -> state) k :
+  fok m ->
+  outcome s (m (Some k)) f = outcome s (m None) f \/ outcome s (m (Some k)) f = (s, ORes (Err EOther)).
+Proof.
+  intros [_ H]; specialize (H k); unfold outcome.
+  destruct (m (Some k)) as [[a k1]|e|].
+  - rewrite H; now left.
+  - destruct H as [->|H]; [now right|rewrite H; now left].
+  - rewrite H; now left.
+Qed.
+
+(* A store failure injected at any statement of a commit, revision or renewal: the
+   operation either is not reached by it (same result as without) or fails with the store
+   error and leaves every part of the state as it was. *)
+Lemma fault_any_statement s o k :
+  match o with
+  | Commit1 u a b c _ =>
+      step s (Commit1 u a b c (Some k)) = step s (Commit1 u a b c None) \/
+      step s (Commit1 u a b c (Some k)) = (s, ORes (Err EOther))
+  | Renew1 a b c d e f g h i j _ =>
+      step s (Renew1 a b c d e f g h i j (Some k)) = step s (Renew1 a b c d e f g h i j None) \/
+      step s (Renew1 a b c d e f g h i j (Some k)) = (s, ORes (Err EOther))
+  | Revise2 a b c d e f _ =>
+      step s (Revise2 a b c d e f (Some k)) = step s (Revise2 a b c d e f None) \/
+      step s (Revise2 a b c d e f (Some k)) = (s, ORes (Err EOther))
+  | Renew2 a b c d e _ =>
+      step s (Renew2 a b c d e (Some k)) = step s (Renew2 a b c d e None) \/
+      step s (Renew2 a b c d e (Some k)) = (s, ORes (Err EOther))
+  | _ => True
+  end.
+Proof.
+  destruct o; try exact I; cbn [step].
+  - destruct (alookup u (upds s)); [|now left]. apply outcome_fault, fok_m_commit1.
+  - apply outcome_fault, fok_m_renew1.
+  - apply outcome_fault, fok_m_revise2.
+  - apply outcome_fault, fok_m_renew2.
+Qed.
